@@ -359,7 +359,7 @@ def cases(ctx):
             out.append(s.lower() if rng.random() < 0.25 else s)
         return out
 
-    N = 2 if quick else 8
+    N = 2 if quick else 16
     work = []
     work += chunks("altitude", [[format(c, "013b")] for c in range(8192)])
     work += chunks("squawk", [[format(c, "013b")] for c in range(8192)])
@@ -420,7 +420,7 @@ def cases(ctx):
     from . import C14, C12
     import random as _r
     specs_names = None
-    for k in range(ctx.share(96 if quick else 600)):
+    for k in range(ctx.share(96 if quick else 2000)):
         if specs_names is None:
             S = C14.specs()
             specs_names = list(S.items())
@@ -460,5 +460,5 @@ def cases(ctx):
                 if len(hx) == 28:
                     calls.append([extra, [hx]])
         yield "m2", {"calls": calls}
-    for k in range(ctx.share(64 if quick else 400)):
+    for k in range(ctx.share(64 if quick else 1500)):
         yield "hist", {"hseed": ctx.seed * 7919 + 1000 * ctx.shard + k}
